@@ -288,7 +288,7 @@ func runCase(t interface {
 func TestIdentity(t *testing.T) {
 	kit.Rec.Rule(rule)
 	rapid.Check(t, func(t *rapid.T) {
-		s := graph.Gen(t, graph.GenOpts{MinNodes: 2, MaxNodes: 6, Variants: "NNLPEUH", Aliases: true, Lookups: true, Twins: true, Alt: true})
+		s := graph.Gen(t, graph.GenOpts{MinNodes: 2, MaxNodes: 6, Variants: "NNLPEUHX", Aliases: true, Lookups: true, Twins: true, Alt: true})
 		wrapNames := map[int]bool{}
 		plans := map[int]graph.WrapPlan{}
 		switch rapid.IntRange(0, 2).Draw(t, "wrapmode") {
